@@ -598,8 +598,20 @@ pub fn run_alloc(line: &str) -> Result<String, String> {
 		serde_avro_fast::de::read::SliceRead::new(&bytes),
 		config,
 	);
+	// optional trailing hint: a scalar target (its `Out` holds no heap data), so that what is counted
+	// is the crate's own allocations while it really decodes the value (not only skips it)
+	let typed = r.hint().ok();
 	let before = crate::alloc_count::count();
-	let res: Result<serde::de::IgnoredAny, _> = serde::Deserialize::deserialize(st.deserializer());
+	let res: Result<(), _> = match &typed {
+		None => <serde::de::IgnoredAny as serde::Deserialize>::deserialize(st.deserializer()).map(|_| ()),
+		Some(h) => {
+			use serde::de::DeserializeSeed;
+			HS(h).deserialize(st.deserializer()).map(|o| {
+				// dropped after the second count below would be cleaner; a scalar `Out` owns nothing
+				std::mem::forget(o)
+			})
+		}
+	};
 	let after = crate::alloc_count::count();
 	let mut rd = st.into_reader();
 	let left = std::io::BufRead::fill_buf(&mut rd).map(|b| b.len()).unwrap_or(0);
@@ -617,6 +629,40 @@ pub fn run_alloc(line: &str) -> Result<String, String> {
 
 pub fn generate_alloc(seed: u64, n: usize, emit: &mut dyn FnMut(String)) {
 	let mut rng = rng_from(seed, "de-alloc");
+	// scalar nodes decoded into scalar targets: every numeric node and every decimal flavour × the
+	// numeric entry points (a decimal really goes through `read_decimal` here, it is not skipped)
+	for i in 0..n.min(120) {
+		let nd = |reg: Reg, logical: Option<Logical>| RawNode { reg, logical };
+		// (an integer entry point on a decimal with a non-zero scale is answered with the decimal's
+		// text, which the recording target stores in a `String` of its own: not generated)
+		let scale = if rng.gen_bool(0.5) { 0 } else { rng.gen_range(1..4u32) };
+		let node = match i % 10 {
+			0 => nd(Reg::Int, None),
+			1 => nd(Reg::Long, None),
+			2 => nd(Reg::Double, None),
+			3 => nd(Reg::Float, None),
+			4 => nd(Reg::Long, Some(Logical::TimestampMicros)),
+			5 | 6 => nd(Reg::Bytes, Some(Logical::Decimal(scale, 20))),
+			7 | 8 => nd(Reg::Fixed("F".into(), *[1usize, 4, 8, 16].choose(&mut rng).unwrap()), Some(Logical::Decimal(scale, 20))),
+			_ => nd(Reg::Bytes, Some(Logical::BigDecimal)),
+		};
+		let schema = vec![node];
+		let mut bytes = vec![];
+		DatumGen { rng: &mut rng, schema: &schema, fancy_layout: false, nonminimal: 0.0 }.gen(0, 0, &mut bytes);
+		let integer_ok = match &schema[0].logical {
+			Some(Logical::Decimal(sc, _)) => *sc == 0,
+			Some(Logical::BigDecimal) => false,
+			_ => true,
+		};
+		let hint = if integer_ok {
+			[Hint::F64, Hint::I64, Hint::U64, Hint::I128, Hint::U128].choose(&mut rng).unwrap().clone()
+		} else {
+			Hint::F64
+		};
+		let mut w = W::default();
+		w.t("dealloc").n(1_000_000_000).n(64).schema(&schema).xb(&bytes).hint(&hint);
+		emit(w.s);
+	}
 	for i in 0..n {
 		let max_nodes = if i % 10 == 0 { 24 } else { 10 };
 		let schema = SchemaGen::new(&mut rng, max_nodes, false).gen_root();
